@@ -22,7 +22,7 @@ def cases(tier, seed):
 
 
 def make_context(tier, seed):
-    return S.make_context(tier, seed)
+    return S.make_context(tier, seed, ["n_advance", "mixed", "hopt", "mxrr", "finalize"])
 
 
 def run_case(case, ctx):
